@@ -9,7 +9,7 @@ from .. import refcodec as rc
 ID = "C17"
 LEVEL = "exploration"
 SHARDS = {"quick": 8, "thorough": 16}
-RULE = ("1..3 hosts on a simulated UDP network, each with source IPv4 address, 48-bit id (byte-boundary bias), port 1..65535, "
+RULE = ("(optionally with the interface argument: the simulated socket refuses to send to 255.255.255.255 without SO_BROADCAST, as a kernel does; in every process two runs with seven auto-connected hosts, each on an event loop of its own) 1..3 hosts on a simulated UDP network, each with source IPv4 address, 48-bit id (byte-boundary bias), port 1..65535, "
         "32-char serial, name net_<tt>_<suffix> with tt = any byte in lower or upper hex, reported IP equal to or different from "
         "the source, 0..80 trailing body bytes, reply version 2 or 3, listening on 6445 or 20086, replying from either port after "
         "a delay below the timeout, optionally next to up to two responders whose replies are malformed (every class of C18's catalogue; what happens to those is C18's business) (default 5 s; also 0.5..9 s, in particular with auto-connected hosts whose TCP side hangs, refuses or is unreachable); replies built by the independent reply builder (anchored to captured replies). Hosts answer "
@@ -60,14 +60,17 @@ def check_case(case: dict):
                     dev.connect_script = [tcp] * 8
                 net.listen(h["ip"], h["port"], dev)
         res["auto"] = auto
+        # optionally the probe is bound to a network interface (the socket layer enforces what a kernel enforces: no broadcast
+        # without SO_BROADCAST)
+        ikw = {"interface": case["interface"]} if case.get("interface") else {}
         try:
             if case.get("single") or target == "name":
-                d = await Discover.discover_single("ac-livingroom.lan" if target == "name" else hosts[0]["ip"], auto_connect=auto, timeout=case.get("timeout", 5))
+                d = await Discover.discover_single("ac-livingroom.lan" if target == "name" else hosts[0]["ip"], auto_connect=auto, timeout=case.get("timeout", 5), **ikw)
                 res["devices"] = [d] if d is not None else []
             elif target == "directed":
-                res["devices"] = await Discover.discover(target="10.255.255.255", auto_connect=auto, timeout=case.get("timeout", 5))
+                res["devices"] = await Discover.discover(target="10.255.255.255", auto_connect=auto, timeout=case.get("timeout", 5), **ikw)
             else:
-                res["devices"] = await Discover.discover(auto_connect=auto, timeout=case.get("timeout", 5))
+                res["devices"] = await Discover.discover(auto_connect=auto, timeout=case.get("timeout", 5), **ikw)
         except Exception as e:
             res["exc"] = e
         res["bad_probes"] = world.bad_probes
@@ -193,6 +196,25 @@ def run(ctx) -> None:
                 ctx.check(case, lambda c: _run_one(ctx, c))
     ctx.sweep("timeout argument x TCP behaviour of auto-connected hosts", k, True)
 
+    # the interface argument x target (limited broadcast, subnet broadcast, one host by address, one host by name)
+    it = 0
+    for iface in ("eth0", "wlan0", "br-lan.10"):
+        for target, single in ((None, False), ("directed", False), (None, True), ("name", False)):
+            for version in (2, 3):
+                it += 1
+                if ctx.mine(it):
+                    hs = [{"ip": f"10.6.{it}.{i + 1}", "id": 0x0E0F10000000 + 8 * it + i, "port": 6444, "sn": f"{it:030d}{i:02d}", "tt": 0xAC, "suffix": "F7B4", "upper": False,
+                           "version": version, "listen_port": [6445, 20086][i], "src_port": 6445, "delay": 0.05 * (i + 1), "extra": ""} for i in range(2)]
+                    ctx.check({"hosts": hs, "target": target, "single": single, "interface": iface}, lambda c: _run_one(ctx, c))
+    ctx.sweep("interface argument x target x version", it, True)
+    # many air conditioners at once, auto-connected, in every process twice (each case runs on an event loop of its own: a second
+    # asyncio.run() in the same process): six hosts whose connects overlap
+    for rep in range(2):
+        hs = [{"ip": f"10.7.{rep}.{i + 1}", "id": 0x0F1011000000 + 16 * rep + i, "port": 6444, "sn": f"{rep:030d}{i:02d}", "tt": 0xAC if i != 4 else 0xA1, "suffix": "F7B4", "upper": False,
+               "version": 2, "listen_port": 6445, "src_port": 6445, "delay": 0.01 + 0.001 * i, "extra": "", "tcp": "ok" if i % 3 else "hang"} for i in range(7)]
+        ctx.check({"hosts": hs, "auto_connect": True, "rep": rep + 10 * ctx.shard}, lambda c: _run_one(ctx, c))
+    ctx.sweep("seven hosts auto-connected at once, twice per process", 2, True)
+
     from . import c18
 
     # every class of malformed neighbour next to two well-formed hosts
@@ -217,7 +239,8 @@ def run(ctx) -> None:
         bads = st.lists(st.sampled_from(discsim.BAD_KINDS).flatmap(lambda k: st.sampled_from(c18._args_for(k, lambda n: bytes(range(7, 7 + n)) if n < 200 else bytes(n))).map(
             lambda a: {"kind": k, "arg": a})), max_size=2)
         return st.tuples(st.sampled_from([None, None, "directed", "name"]), st.booleans(), st.sampled_from([None, None, 0.5, 1.5, 2, 8]), bads, st.sampled_from([None, None, None, 20086, 6445])).map(
-            lambda t: dict(dict(fin(t), bad=t[3]) if (t[3] and t[0] != "name" and not c.get("single")) else fin(t), **({"send_error": t[4]} if t[4] else {})))
+            lambda t: dict(dict(fin(t), bad=t[3]) if (t[3] and t[0] != "name" and not c.get("single")) else fin(t), **({"send_error": t[4]} if t[4] else {}))).flatmap(
+            lambda c2: st.sampled_from([None, None, "eth0", "wlan0"]).map(lambda i: dict(c2, interface=i) if i else c2))
     cases = st.one_of(
         st.tuples(host_strategy(1)).map(lambda t: {"hosts": list(t)}),
         st.tuples(host_strategy(1), st.booleans()).map(lambda t: {"hosts": [t[0]], "single": t[1]}),
